@@ -146,8 +146,8 @@ def table():
     for name in names([]):
         m = load(name)
         det = m.get('detection', {})
-        hit = [k for k, v in det.items() if v['exit'] == 1]
-        sig = next((v['signatures'][0] for k, v in det.items() if v['exit'] == 1 and v['signatures']), '')
+        hit = [k for k, v in det.items() if v['exit'] == 1 and '@' not in k]
+        sig = next((v['signatures'][0] for k, v in det.items() if v['exit'] == 1 and v['signatures'] and '@' not in k), '')
         conf = m.get('confirmation', {}).get('confirmed')
         rows.append('| %s | %s | %s | %s | `%s` |' % (name, m['breaks_property'], 'yes' if conf else 'no', ', '.join(hit) or 'MISSED', sig[:70]))
     print('| seeded change | property | confirmed | caught by | first signature |\n|---|---|---|---|---|')
